@@ -299,6 +299,17 @@ def class_source(rec):
                 base = default_spec(a["kind"], a.get("default", "none"))
                 raw = K.get("mut", K.get("lit", "MISSING")) if a.get("default", "none") != "none" else "MISSING"
                 src = f" = Attr(default={raw}, invalidated_by={list(inv)!r})"
+            if a.get("prop") == "setter":
+                # an ordinary property with a setter that keeps the value in a private attribute of the instance
+                out.append(f"    {n}: {K['ann']}")
+                out.append(f"    @property")
+                out.append(f"    def {n}(self):")
+                out.append(f"        return self._{n}_value")
+                out.append(f"    @{n}.setter")
+                out.append(f"    def {n}(self, value):")
+                out.append(f"        CB.hit('setter')")
+                out.append(f"        self._{n}_value = value")
+                continue
             if a.get("prop") == "stored":
                 # served by a property WITHOUT setter whose getter hands out the instance's own (privately stored) collection:
                 # element helpers can edit what they read, but can never store it back
@@ -344,6 +355,9 @@ def class_source(rec):
             out += ["    def __post_init__(self):", "        CB.hit('post_init')"]
         if with_hooks and o.get("post_copy"):
             out += ["    def __post_copy__(self):", "        CB.hit('post_copy')"]
+            if o.get("post_copy") == "assigns":
+                # the hook as the documentation shows it: it completes the copy by writing to it
+                out += ["        self.copies = getattr(self, 'copies', 0) + 1"]
         if not out:
             out.append("    pass")
         return out
